@@ -67,11 +67,14 @@ def conditionally_called(ctx: Ctx, pid: str):
         lp = loops(e)
         dep, cm = lp[0][0][0], lp[1][0][0]
         g = py_guard(e)
-        oks = oks or (pmatch("Q_s.add(Q_x)", e.call)["x"] == cm and pmatch("Q_mm.methods_by_transaction[TBody(Q_d)]", lp[1][1]) is not None and pmatch("Q_mm.methods_by_transaction[TBody(Q_d)]", lp[1][1])["d"] == dep)
-    ctx.check(oks, rule + ".infects-called-methods", sub_add[0][1].site if sub_add else fn.site, "_conditionally_called.infection.methods", found="; ".join(tstr(e.call) for _, e in sub_add) or "none",
-              required="all methods called by such a transaction are marked too (and queued for further infection)")
+        # the only test on the called method itself is "not yet marked"
+        about_cm = [a for a in atoms_of(g) if any(x == cm for x in subterms(a))]
+        fresh = not about_cm or (about_cm == [("op", "in", cm, ret)] and implies(g, f_not(A(about_cm[0]))) is None and g is not False)
+        oks = oks or (fresh and pmatch("Q_s.add(Q_x)", e.call)["x"] == cm and pmatch("Q_mm.methods_by_transaction[TBody(Q_d)]", lp[1][1]) is not None and pmatch("Q_mm.methods_by_transaction[TBody(Q_d)]", lp[1][1])["d"] == dep)
+    ctx.check(oks, rule + ".infects-called-methods", sub_add[0][1].site if sub_add else fn.site, "_conditionally_called.infection.methods", found="; ".join(f"{tstr(e.call)} if {fstr(py_guard(e))[:200]}" for _, e in sub_add) or "none",
+              required="all methods called by such a transaction are marked too unless already marked (and queued for further infection)")
     q = [(ex, e) for ex in fn.exs for e in ex.of(Effect) if pmatch("Q_l.append(Q_x)", e.call) and any(fr[0] == "while" for fr in e.frames)]
-    okq = any(len(loops(e)) == 2 and pmatch("Q_l.append(Q_x)", e.call)["x"] == loops(e)[1][0][0] for _, e in q)
+    okq = any(len(loops(e)) == 2 and pmatch("Q_l.append(Q_x)", e.call)["x"] == loops(e)[1][0][0] and any(py_guard(e) == py_guard(e2) for _, e2 in sub_add) for _, e in q)
     ctx.check(okq, rule + ".worklist", q[0][1].site if q else fn.site, "_conditionally_called.infection.worklist", found=f"{len(q)} append(s) to the worklist", required="newly marked methods are queued so the infection is transitive")
     rs = fn.facts(Raise)
     ctx.check(bool(rs), rule + ".unsupported-rejected", fn.site, "_conditionally_called.infection.reject", found=f"{len(rs)} raise(s)", required="a simultaneity constraint on a conditionally called method that is not ready-dependent is rejected", nontrivial=False)
